@@ -1044,7 +1044,11 @@ impl<T: Config> P2PSession<T> {
                 let min_confirmed = con_status.last_frame;
 
                 queue_connected = queue_connected && connected;
-                queue_min_confirmed = std::cmp::min(queue_min_confirmed, min_confirmed);
+                // only a peer that has dropped the player names a cut-off; the last frame of a peer that still
+                // lists the player as connected is merely how much it had received when it last sent us an input
+                if !connected {
+                    queue_min_confirmed = std::cmp::min(queue_min_confirmed, min_confirmed);
+                }
             }
 
             // check our local info for that player
